@@ -614,6 +614,42 @@ def check_clone_settings(run, ix):
                        'ComplexResult, prints differently)' % (name, name), line=f.lineno))
 
 
+# --------------------------------------------------------------------------- X-R13
+def check_foreign_constants(run, ix, rule='X-R13'):
+    """X-R13.  A lazy constant (pi, e, ...) has no value of its own: its `_mpf_` is its value at the precision of
+    the context it BELONGS to.  A context that converts a constant of another context through `_mpf_` therefore gets
+    a number that follows the other context's precision -- and the interval context gets ONE value for both
+    endpoints (iv.mpf(mp.pi) was a point interval below pi).  Decided: the three conversion sites test for the
+    base class `_constant` (not only the context's own constant class) before they look at `_mpf_`, and call the
+    constant's function with the receiving precision and rounding mode."""
+    sites = [(CTXPY, '_mpf.mpf_convert_arg', 'x'), (CTXPY, 'PythonMPContext.convert', 'x'), (CTXIV, 'convert_mpf_', 'x')]
+    for rel, qn, x in sites:
+        f = ix.func(rel, qn)
+        generic = [a for a in _walk_own(f.node) if isinstance(a, ast.Attribute) and a.attr == '_mpf_' and
+                   norm(a.value) == x and isinstance(a.ctx, ast.Load)]
+        if not generic:
+            raise AnalysisError('%s: generic _mpf_ conversion not found' % qn)
+        first = min(a.lineno for a in generic)
+        ok = False
+        for i in _walk_own(f.node):
+            if isinstance(i, ast.If) and i.lineno <= first:
+                cs = [norm(c).replace(' ', '') for c in (i.test.values if isinstance(i.test, ast.BoolOp) and
+                                                         isinstance(i.test.op, ast.And) else [i.test])]
+                if 'isinstance(%s,_constant)' % x in cs:
+                    calls = [c for b in i.body for c in ast.walk(b) if isinstance(c, ast.Call) and
+                             norm(c.func) == '%s.func' % x and len(c.args) == 2 and
+                             norm(c.args[0]) == 'prec' and norm(c.args[1]) == 'rounding']
+                    if calls:
+                        ok = True
+        if ok:
+            run.ok(rule, '%s evaluates a constant of any context with its own (prec, rounding)' % qn)
+        else:
+            run.fail(F(rule, rel, qn, generic[0]._parent if hasattr(generic[0], '_parent') else generic[0],
+                       'a lazy constant of another context reaches `%s._mpf_`, its value at the OTHER context\'s precision '
+                       '(and in round-to-nearest): iv.mpf(mp.pi) is a one-point interval that excludes pi, '
+                       'mp.mpf(clone.pi) follows clone.prec' % x))
+
+
 # --------------------------------------------------------------------------- X-R12
 def check_matrix_entry_conversion(run, ix):
     """X-R12.  The numbers a matrix holds belong to the matrix's context: an mpf computes with the precision of ITS
@@ -793,11 +829,28 @@ def check_borrowed_computation(run, ix):
 
 
 # --------------------------------------------------------------------------- X-R6
+def foreign_aliases(f):
+    """local names bound to <name>._mp / ._fp / ._iv:  mp = ctx._mp"""
+    al = {}
+    for x in _walk_own(f.node):
+        if isinstance(x, ast.Assign) and len(x.targets) == 1 and isinstance(x.targets[0], ast.Name) and \
+                isinstance(x.value, ast.Attribute) and x.value.attr in ('_mp', '_fp', '_iv') and \
+                isinstance(x.value.value, ast.Name):
+            al[x.targets[0].id] = norm(x.value)
+    return al
+
+
 def foreign_exprs(f):
-    """expressions <name>._mp / ._fp / ._iv occurring in f"""
+    """expressions <name>._mp / ._fp / ._iv occurring in f, and uses of local aliases of them"""
     out = []
+    al = foreign_aliases(f)
     for x in _walk_own(f.node):
         if isinstance(x, ast.Attribute) and x.attr in ('_mp', '_fp', '_iv') and isinstance(x.value, ast.Name):
+            if isinstance(getattr(x, '_parent', None), ast.Assign) and x._parent.value is x and \
+                    isinstance(x._parent.targets[0], ast.Name):
+                continue                      # the aliasing assignment itself
+            out.append(x)
+        elif isinstance(x, ast.Name) and x.id in al and isinstance(x.ctx, ast.Load):
             out.append(x)
     return out
 
@@ -880,6 +933,14 @@ def in_finally(node, stop):
     return False
 
 
+def _same_object(text, obj, al):
+    """`text` (e.g. 'mp.prec' / 'ctx._mp.prec') denotes attribute prec of the object `obj`, modulo local aliases"""
+    if not text.endswith('.prec'):
+        return False
+    base = text[:-5]
+    return al.get(base, base) == al.get(obj, obj)
+
+
 def protected(stmt, f, obj):
     """stmt lies in the body of a Try whose finalbody assigns <obj>.prec = snap, snap assigned from
     <obj>.prec before the Try in the same block and not reassigned inside the Try"""
@@ -887,9 +948,10 @@ def protected(stmt, f, obj):
     while p is not None and p is not f.node:
         par = getattr(p, '_parent', None)
         if isinstance(par, ast.Try) and any(p is s for s in par.body) and par.finalbody:
+            al = foreign_aliases(f)
             for fs in par.finalbody:
                 if isinstance(fs, ast.Assign) and len(fs.targets) == 1 and \
-                        norm(fs.targets[0]) == obj + '.prec' and isinstance(fs.value, ast.Name):
+                        _same_object(norm(fs.targets[0]), obj, al) and isinstance(fs.value, ast.Name):
                     snap = fs.value.id
                     # snapshot before the try
                     holder = getattr(par, '_parent', None)
@@ -902,7 +964,7 @@ def protected(stmt, f, obj):
                         continue
                     idx = body.index(par)
                     snaps = [s for s in body[:idx] if isinstance(s, ast.Assign) and len(s.targets) == 1 and
-                             norm(s.targets[0]) == snap and norm(s.value) == obj + '.prec']
+                             norm(s.targets[0]) == snap and _same_object(norm(s.value), obj, al)]
                     rewritten = [x for s in par.body for x in ast.walk(s) if isinstance(x, ast.Name) and
                                  x.id == snap and isinstance(x.ctx, ast.Store)]
                     if snaps and not rewritten:
@@ -1002,6 +1064,8 @@ def run(run, ix, tier):
     run.rule('X-R11', floor=1, desc='a borrowed context\'s trap_complex is neutralised and restored')
     check_clone_settings(run, ix)
     check_borrowed_computation(run, ix)
+    run.rule('X-R13', floor=3, desc='constants of another context are evaluated at the receiving context')
+    check_foreign_constants(run, ix)
     run.rule('X-R12', floor=3, desc='matrix entries taken over without conversion come from a matrix of the same context')
     check_matrix_entry_conversion(run, ix)
     run.stats.update({'mutated_context_attributes': n2, 'allocation_sites': n4,
